@@ -16,7 +16,7 @@ from simkit.tape import mix
 from . import common as C
 
 KINDS = ["bytes", "buffer", "sim", "raw_eager", "raw_lazy", "wav_eager",
-         "wav_lazy", "stdin"]
+         "wav_lazy", "stdin", "raw_fifo"]
 
 
 # ------------------------------------------------------------------ model
@@ -151,6 +151,11 @@ class Engine:
             elif m == 1 and block and block > 0:
                 hop = block + T.between(1, 3)
                 hop_mode = "gt"
+                if T.draw(3) == 0:
+                    # hop_dur > block_dur although both floor to the same
+                    # number of samples: still to be rejected
+                    hop = block
+                    hop_mode = "gt_same"
         # stream length: around boundaries
         unit = max(1, block or 1)
         h = hop if (hop and hop_mode == "lt") else unit
@@ -276,6 +281,12 @@ class Engine:
         if hop is not None:
             if sc["hop_mode"] == "eq":
                 hd = bd
+            elif sc["hop_mode"] == "gt_same":
+                bd = (block + 0.25) / sr
+                hd = (block + 0.5) / sr
+                if int(bd * sr) != block or int(hd * sr) != block \
+                        or not hd > bd:
+                    return self._skip(out)
             elif sc["hop_mode"] == "lt_same":
                 bd = (block + 0.5) / sr
                 hd = (block + 0.25) / sr
@@ -305,6 +316,7 @@ class Engine:
                 out["probes"]["max_read_exact_tie"] = 1
 
         tmp = None
+        fifo_feeder = None
         kind = sc["kind"]
         old_stdin = sys.stdin
         src_obj = None
@@ -331,6 +343,18 @@ class Engine:
                     if src_obj is not None:
                         src_obj.served = []
                         src_obj.reads = 0
+            elif kind == "raw_fifo":
+                # a named pipe given as an eagerly loaded raw "file" (what
+                # `auditok <(producer)` does): a real FIFO fed by a real
+                # thread; the content delivered is deterministic, only its
+                # timing is not, and eager loading reads until end of file
+                tmp = C.scratch_dir()
+                inp = os.path.join(tmp, "a.raw")
+                if length > 20000:
+                    return self._skip(out)
+                fifo_feeder = _feed_fifo(inp, data)
+                kw = {"sampling_rate": sr, "sample_width": sw, "channels": ch,
+                      "large_file": False}
             elif kind in ("raw_eager", "raw_lazy"):
                 tmp = C.scratch_dir()
                 inp = os.path.join(tmp, "a.raw")
@@ -354,7 +378,7 @@ class Engine:
             expect_err = None
             if block is None or block <= 0:
                 expect_err = "block"
-            elif sc["hop_mode"] == "gt":
+            elif sc["hop_mode"] in ("gt", "gt_same"):
                 expect_err = "hop"
             record = sc["record"]
             try:
@@ -448,6 +472,8 @@ class Engine:
         finally:
             sys.stdin = old_stdin
             seams.PROXY_FILES["on"] = False
+            if fifo_feeder is not None:
+                _release_fifo(fifo_feeder)
             if tmp:
                 C.rm_scratch(tmp)
 
@@ -679,6 +705,56 @@ class Engine:
             (record and rewound and reads_after_rewind >= 1)
             or (not record and nonempty >= 1))
         return None
+
+
+def _feed_fifo(path, data):
+    import threading
+    os.mkfifo(path)
+
+    def feed():
+        try:
+            fd = os.open(path, os.O_WRONLY)   # blocks until a reader opens
+        except OSError:
+            return
+        try:
+            view = memoryview(data)
+            i = 0
+            sizes = (7, 3, 64, 1, 500)
+            k = 0
+            while i < len(view):
+                n = sizes[k % len(sizes)]
+                k += 1
+                os.write(fd, view[i:i + n])
+                i += n
+        except OSError:
+            pass
+        finally:
+            try:
+                os.close(fd)
+            except OSError:
+                pass
+    t = threading.Thread(target=feed, daemon=True)
+    from simkit import sched as _s
+    _s._ORIG_START(t)
+    return (t, path)
+
+
+def _release_fifo(feeder):
+    t, path = feeder
+    if t.is_alive():
+        # nobody opened the read end (or stopped reading): unblock the writer
+        try:
+            fd = os.open(path, os.O_RDONLY | os.O_NONBLOCK)
+            try:
+                while os.read(fd, 1 << 16):
+                    pass
+            except OSError:
+                pass
+            os.close(fd)
+        except OSError:
+            pass
+    from simkit import sched as _s
+    _s._ORIG_JOIN(t, 2.0)
 
 
 def _short(b):
